@@ -86,6 +86,28 @@ fn plist(ps: &[(u64, u64)]) -> String {
     s.push(']');
     s
 }
+const HMOD: u128 = 2305843009213693951;
+fn hstep(h: u128, x: u64) -> u128 {
+    (h * 1000003 + x as u128 + 1) % HMOD
+}
+const LONG: usize = 12;
+/// a sorted id list: in full when short, as (length, hash) when long
+fn zs(v: &[u64]) -> String {
+    if v.len() <= LONG {
+        format!("(ZL {})", ulist(v.iter().copied()))
+    } else {
+        let h = v.iter().fold(0u128, |h, &x| hstep(h, x));
+        format!("(ZH {} {})", v.len(), h)
+    }
+}
+fn ps(v: &[(u64, u64)]) -> String {
+    if v.len() <= LONG {
+        format!("(PL {})", plist(v))
+    } else {
+        let h = v.iter().fold(0u128, |h, &(a, b)| hstep(hstep(h, a), b));
+        format!("(PH {} {})", v.len(), h)
+    }
+}
 fn blist(b: &[u8]) -> String {
     ulist(b.iter().map(|&x| x as u64))
 }
@@ -261,6 +283,8 @@ struct Sut {
     values_seen: Vec<Vec<Value>>, // per node key
     evalues_seen: Vec<Vec<Value>>,
     phantom: BTreeSet<u64>,
+    /// probe values that every observation of this trace uses in addition to the random ones
+    forced: Vec<(i64, Value)>,
 }
 
 impl Sut {
@@ -284,6 +308,7 @@ impl Sut {
             values_seen: vec![vec![]; N_KEYS as usize],
             evalues_seen: vec![vec![]; N_KEYS as usize],
             phantom: BTreeSet::new(),
+            forced: vec![],
         }
     }
     fn backward(&self) -> bool {
@@ -501,6 +526,16 @@ fn in_range(x: &Value, lo: &Option<Value>, hi: &Option<Value>, li: bool, hi_i: b
     }
     true
 }
+/// the value contains a float NaN or a float zero (the values on which Value::eq and HashableValue::eq differ)
+fn special(v: &Value) -> bool {
+    match v {
+        Value::Float64(f) => f.is_nan() || *f == 0.0,
+        Value::List(l) => l.iter().any(special),
+        Value::Map(m) => m.values().any(special),
+        Value::Vector(x) => x.iter().any(|f| f.is_nan() || *f == 0.0),
+        _ => false,
+    }
+}
 const OPS6: [(CompareOp, &str); 6] = [
     (CompareOp::Eq, "OpEq"),
     (CompareOp::Ne, "OpNe"),
@@ -576,26 +611,29 @@ fn observe(sut: &Sut, r: &mut Rng, heavy: bool, after_refresh: bool) -> Obs {
     // ---- enumerations and counts
     let node_ids: Vec<u64> = st.node_ids().iter().map(|n| n.as_u64()).collect();
     let live: BTreeSet<u64> = node_ids.iter().copied().collect();
-    items.push(format!("O(ONodeIds {})", ulist(node_ids.iter().copied())));
+    items.push(format!("O(ONodeIds {})", zs(&node_ids)));
     let nc = st.node_count();
     let ec = st.edge_count();
     items.push(format!("O(OCounts {} {})", nc, ec));
     let mut all_nodes: Vec<u64> = st.all_nodes().map(|n| n.id.as_u64()).collect();
     all_nodes.sort();
-    items.push(format!("O(OAllNodes {})", ulist(all_nodes.iter().copied())));
+    items.push(format!("O(OAllNodes {})", zs(&all_nodes)));
     let mut all_edges: Vec<(u64, u64, u64, i64)> =
         st.all_edges().map(|e| (e.id.as_u64(), e.src.as_u64(), e.dst.as_u64(), tok(&e.edge_type))).collect();
     all_edges.sort();
-    {
-        let mut s = String::from("O(OAllEdges [");
+    if all_edges.len() <= LONG {
+        let mut s = String::from("O(OAllEdges (QL [");
         for (i, (id, a, b, t)) in all_edges.iter().enumerate() {
             if i > 0 {
                 s.push(';');
             }
             let _ = write!(s, "({},{},{},{})", id, a, b, t);
         }
-        s.push_str("])");
+        s.push_str("]))");
         items.push(s);
+    } else {
+        let h = all_edges.iter().fold(0u128, |h, &(id, a, b, t)| hstep(hstep(hstep(hstep(h, id), a), b), t as u64));
+        items.push(format!("O(OAllEdges (QH {} {}))", all_edges.len(), h));
     }
     items.push(format!("O(OCatalog {} {})", st.label_count(), st.edge_type_count()));
     // oracle: counts equal enumerations
@@ -620,7 +658,7 @@ fn observe(sut: &Sut, r: &mut Rng, heavy: bool, after_refresh: bool) -> Obs {
     let mut by_label: Vec<Vec<u64>> = Vec::new();
     for l in 0..=N_LABELS {
         let ids: Vec<u64> = st.nodes_by_label(&label(l)).iter().map(|n| n.as_u64()).collect();
-        items.push(format!("O(OByLabel {} {})", l, ulist(ids.iter().copied())));
+        items.push(format!("O(OByLabel {} {})", l, zs(&ids)));
         by_label.push(ids);
     }
     // oracle: label lookup == live nodes carrying the label, once each
@@ -644,12 +682,12 @@ fn observe(sut: &Sut, r: &mut Rng, heavy: bool, after_refresh: bool) -> Obs {
     // ---- per node: get_node, adjacency
     let mut sample: Vec<u64> = Vec::new();
     let total = sut.n_nodes;
-    if total <= 14 || !heavy {
-        sample.extend(0..total.min(40));
+    if total <= 10 {
+        sample.extend(0..total);
     } else {
-        // hub traces: node 0 (hub), the first few and a random handful
-        sample.extend(0..4);
-        for _ in 0..5 {
+        // node 0/1 (the hubs of the hub traces) and a random handful
+        sample.extend(0..2);
+        for _ in 0..(if heavy { 5 } else { 6 }) {
             sample.push(r.below(total));
         }
     }
@@ -680,15 +718,15 @@ fn observe(sut: &Sut, r: &mut Rng, heavy: bool, after_refresh: bool) -> Obs {
         let inc = sorted_pairs(st.edges_from(nid, Direction::Incoming).collect());
         let both = sorted_pairs(st.edges_from(nid, Direction::Both).collect());
         let to = sorted_pairs(st.edges_to(nid));
-        items.push(format!("O(OEdgesFrom {} Outgoing {})", n, plist(&out)));
-        items.push(format!("O(OEdgesFrom {} Incoming {})", n, plist(&inc)));
-        items.push(format!("O(OEdgesFrom {} Both {})", n, plist(&both)));
-        items.push(format!("O(OEdgesTo {} {})", n, plist(&to)));
+        items.push(format!("O(OEdgesFrom {} Outgoing {})", n, ps(&out)));
+        items.push(format!("O(OEdgesFrom {} Incoming {})", n, ps(&inc)));
+        items.push(format!("O(OEdgesFrom {} Both {})", n, ps(&both)));
+        items.push(format!("O(OEdgesTo {} {})", n, ps(&to)));
         let mut neigh: Vec<Vec<u64>> = Vec::new();
         for d in [Direction::Outgoing, Direction::Incoming, Direction::Both] {
             let mut ns: Vec<u64> = st.neighbors(nid, d).map(|x| x.as_u64()).collect();
             ns.sort();
-            items.push(format!("O(ONeighbors {} {} {})", n, dir_coq(d), ulist(ns.iter().copied())));
+            items.push(format!("O(ONeighbors {} {} {})", n, dir_coq(d), zs(&ns)));
             neigh.push(ns);
         }
         let od = st.out_degree(nid);
@@ -696,10 +734,10 @@ fn observe(sut: &Sut, r: &mut Rng, heavy: bool, after_refresh: bool) -> Obs {
         items.push(format!("O(ODegrees {} {} {})", n, od, id));
         // shadows, exact order
         let sf: Vec<(u64, u64)> = sut.sh_fwd.edges_from(nid).into_iter().map(|(a, b)| (a.as_u64(), b.as_u64())).collect();
-        items.push(format!("O(OShadow true {} {})", n, plist(&sf)));
+        items.push(format!("O(OShadow true {} {})", n, ps(&sf)));
         if sut.backward() {
             let sb: Vec<(u64, u64)> = sut.sh_bwd.edges_from(nid).into_iter().map(|(a, b)| (a.as_u64(), b.as_u64())).collect();
-            items.push(format!("O(OShadow false {} {})", n, plist(&sb)));
+            items.push(format!("O(OShadow false {} {})", n, ps(&sb)));
             let mut sbs = sb.clone();
             sbs.sort();
             if sbs != to {
@@ -809,36 +847,40 @@ fn observe(sut: &Sut, r: &mut Rng, heavy: bool, after_refresh: bool) -> Obs {
         // everything stored in the column, reachable through the public accessor (incl. ids that are not live)
         let stored: Vec<(u64, Value)> = (0..sut.n_nodes + 2).filter_map(|n| st.get_node_property(NodeId::new(n), &pk).map(|v| (n, v))).collect();
         let nprobe = if heavy { 3 } else { 5 };
-        for q in probe_values(r, &sut.values_seen[k as usize], nprobe) {
+        let mut probes = probe_values(r, &sut.values_seen[k as usize], nprobe);
+        probes.extend(sut.forced.iter().filter(|(fk, _)| *fk == k).map(|(_, v)| v.clone()));
+        for q in probes {
             // find_nodes_by_property
             let mut found: Vec<u64> = st.find_nodes_by_property(&key(k), &q).iter().map(|n| n.as_u64()).collect();
             found.sort();
-            items.push(format!("O(OFind {} {} {})", k, cv(&q), ulist(found.iter().copied())));
+            items.push(format!("O(OFind {} {} {})", k, cv(&q), zs(&found)));
             let scan: Vec<u64> = node_ids
                 .iter()
                 .copied()
                 .filter(|&n| st.get_node_property(NodeId::new(n), &pk).is_some_and(|v| v == q))
                 .collect();
             if found != scan {
-                let dead = found.iter().any(|n| !live.contains(n));
-                if dead {
-                    fail(
-                        "C14-K6",
-                        format!("index lookup k{} = {:?} returns {:?} (contains an id that is not a live node), scan {:?}", k, q, found, scan),
-                        Some(format!("k_index_dead BW {{OPS}} {} {}", k, cv(&q))),
-                    );
-                } else {
+                // a float NaN / signed zero in the query value is the K3 class, everything else
+                // can only come from a property written to an id that was not a live node (K6)
+                if special(&q) {
                     fail(
                         "C14-K3",
                         format!("index lookup k{} = {:?} returns {:?} but the scan finds {:?}", k, q, found, scan),
                         Some(format!("k_index_float BW {{OPS}} {} {}", k, cv(&q))),
                     );
+                } else {
+                    fail(
+                        "C14-K6",
+                        format!("index lookup k{} = {:?} returns {:?} but the scan over the live nodes finds {:?}", k, q, found, scan),
+                        Some(format!("k_index_dead BW {{OPS}} {} {}", k, cv(&q))),
+                    );
                 }
             }
             // might_match, all six operators
+            let mut bs: Vec<&str> = Vec::new();
             for (op, opn) in OPS6 {
                 let mm = st.node_property_might_match(&pk, op, &q);
-                items.push(format!("O(OMight true {} {} {} {})", k, opn, cv(&q), cb(mm)));
+                bs.push(cb(mm));
                 if !mm {
                     if let Some((n, x)) = stored.iter().find(|(_, x)| sat(op, x, &q)) {
                         let round = matches!(op, CompareOp::Lt | CompareOp::Gt);
@@ -850,6 +892,7 @@ fn observe(sut: &Sut, r: &mut Rng, heavy: bool, after_refresh: bool) -> Obs {
                     }
                 }
             }
+            items.push(format!("O(OMight true {} {} [{}])", k, cv(&q), bs.join(";")));
         }
         // find_nodes_in_range
         for _ in 0..(if heavy { 1 } else { 2 }) {
@@ -860,7 +903,7 @@ fn observe(sut: &Sut, r: &mut Rng, heavy: bool, after_refresh: bool) -> Obs {
             let hi_i = r.chance(1, 2);
             let mut got: Vec<u64> = st.find_nodes_in_range(&key(k), lo.as_ref(), hi.as_ref(), li, hi_i).iter().map(|n| n.as_u64()).collect();
             got.sort();
-            items.push(format!("O(OFindRange {} {} {} {} {} {})", k, cov(&lo), cov(&hi), cb(li), cb(hi_i), ulist(got.iter().copied())));
+            items.push(format!("O(OFindRange {} {} {} {} {} {})", k, cov(&lo), cov(&hi), cb(li), cb(hi_i), zs(&got)));
             let scan: Vec<u64> = node_ids
                 .iter()
                 .copied()
@@ -877,9 +920,10 @@ fn observe(sut: &Sut, r: &mut Rng, heavy: bool, after_refresh: bool) -> Obs {
         // edge columns: zone maps only
         for q in probe_values(r, &sut.evalues_seen[k as usize], 1) {
             let stored_e: Vec<(u64, Value)> = (0..n_edges + 1).filter_map(|e| st.get_edge_property(EdgeId::new(e), &pk).map(|v| (e, v))).collect();
+            let mut bs: Vec<&str> = Vec::new();
             for (op, opn) in OPS6 {
                 let mm = st.edge_property_might_match(&pk, op, &q);
-                items.push(format!("O(OMight false {} {} {} {})", k, opn, cv(&q), cb(mm)));
+                bs.push(cb(mm));
                 if !mm {
                     if let Some((e, x)) = stored_e.iter().find(|(_, x)| sat(op, x, &q)) {
                         let round = matches!(op, CompareOp::Lt | CompareOp::Gt);
@@ -891,6 +935,7 @@ fn observe(sut: &Sut, r: &mut Rng, heavy: bool, after_refresh: bool) -> Obs {
                     }
                 }
             }
+            items.push(format!("O(OMight false {} {} [{}])", k, cv(&q), bs.join(";")));
         }
     }
 
@@ -1210,7 +1255,13 @@ fn gen_hub_ops(r: &mut Rng, len: usize) -> Vec<Op> {
 // one trace
 
 fn run_trace(out: &mut Out, r: &mut Rng, mode: Mode, ops: &[Op], obs_every: usize, tag: &str, heavy: bool) {
+    run_trace_p(out, r, mode, ops, obs_every, tag, heavy, &[])
+}
+
+#[allow(clippy::too_many_arguments)]
+fn run_trace_p(out: &mut Out, r: &mut Rng, mode: Mode, ops: &[Op], obs_every: usize, tag: &str, heavy: bool, forced: &[(i64, Value)]) {
     let mut sut = Sut::new(mode);
+    sut.forced = forced.to_vec();
     let mut items: Vec<String> = Vec::new();
     let mut opcoq: Vec<String> = Vec::new();
     let mut fails: Vec<(usize, Failure)> = Vec::new();
@@ -1353,8 +1404,8 @@ fn corpus(out: &mut Out, r: &mut Rng) {
     let all = [Mode::StoreBackward, Mode::StoreForwardOnly, Mode::Db];
     // C14-K1 (fixed by 115f14a): delete_node left the node in the property index
     for m in all {
-        run_trace(out, r, m, &[CreateNode(vec![0]), SetNodeProp(0, 1, i(5)), CreateIndex(1), DeleteNode(0)], 1, "corpus:K1", false);
-        run_trace(
+        run_trace_p(out, r, m, &[CreateNode(vec![0]), SetNodeProp(0, 1, i(5)), CreateIndex(1), DeleteNode(0)], 1, "corpus:K1", false, &[(1, i(5))]);
+        run_trace_p(
             out,
             r,
             m,
@@ -1362,6 +1413,7 @@ fn corpus(out: &mut Out, r: &mut Rng) {
             1,
             "corpus:K1",
             false,
+            &[(0, i(7))],
         );
     }
     // C14-K2: non-detach delete_node leaves live edges pointing at a deleted node
@@ -1374,16 +1426,55 @@ fn corpus(out: &mut Out, r: &mut Rng) {
         run_trace(out, r, m, &[CreateNode(vec![0]), CreateNode(vec![1]), CreateEdge(0, 1, 0), CreateEdge(1, 1, 2), DeleteNodeEdges(1), DeleteNode(1)], 1, "corpus:detach", false);
     }
     // C14-K3: index lookup (bit equality) vs scan (IEEE equality)
-    run_trace(out, r, Mode::StoreBackward, &[CreateNode(vec![]), SetNodeProp(0, 1, f(f64::NAN)), CreateIndex(1)], 1, "corpus:K3", false);
-    run_trace(out, r, Mode::StoreBackward, &[CreateNode(vec![]), SetNodeProp(0, 1, f(0.0)), CreateIndex(1), CreateNode(vec![]), SetNodeProp(1, 1, f(-0.0))], 1, "corpus:K3", false);
+    let fl = [(1, f(f64::NAN)), (1, f(0.0)), (1, f(-0.0))];
+    run_trace_p(out, r, Mode::StoreBackward, &[CreateNode(vec![]), SetNodeProp(0, 1, f(f64::NAN)), CreateIndex(1)], 1, "corpus:K3", false, &fl);
+    run_trace_p(out, r, Mode::StoreBackward, &[CreateNode(vec![]), SetNodeProp(0, 1, f(0.0)), CreateIndex(1), CreateNode(vec![]), SetNodeProp(1, 1, f(-0.0))], 1, "corpus:K3", false, &fl);
     // C14-K4: Float 2^53 becomes the minimum, Int 2^53 compares Equal to it, query < Int 2^53+1
-    run_trace(out, r, Mode::StoreBackward, &[CreateNode(vec![]), CreateNode(vec![]), SetNodeProp(0, 1, f(9007199254740992.0)), SetNodeProp(1, 1, i(1 << 53))], 1, "corpus:K4", false);
-    run_trace(out, r, Mode::Db, &[CreateNode(vec![]), CreateNode(vec![]), SetNodeProp(0, 1, f(-9007199254740992.0)), SetNodeProp(1, 1, i(-(1 << 53)))], 1, "corpus:K4", false);
+    run_trace_p(
+        out,
+        r,
+        Mode::StoreBackward,
+        &[CreateNode(vec![]), CreateNode(vec![]), SetNodeProp(0, 1, f(9007199254740992.0)), SetNodeProp(1, 1, i(1 << 53))],
+        1,
+        "corpus:K4",
+        false,
+        &[(1, i((1 << 53) + 1)), (1, i(1 << 53))],
+    );
+    run_trace_p(
+        out,
+        r,
+        Mode::Db,
+        &[CreateNode(vec![]), CreateNode(vec![]), SetNodeProp(0, 1, f(-9007199254740992.0)), SetNodeProp(1, 1, i(-(1 << 53)))],
+        1,
+        "corpus:K4",
+        false,
+        &[(1, i(-(1 << 53) - 1))],
+    );
+    // mixed Int/Float below 2^53 is pruned correctly
+    run_trace_p(
+        out,
+        r,
+        Mode::StoreBackward,
+        &[CreateNode(vec![]), CreateNode(vec![]), CreateNode(vec![]), SetNodeProp(0, 1, f(2.5)), SetNodeProp(1, 1, i(2)), SetNodeProp(2, 1, i(3))],
+        1,
+        "corpus:mixed-small",
+        false,
+        &[(1, i(2)), (1, i(3)), (1, f(2.5)), (1, f(3.0)), (1, i(4)), (1, f(1.5))],
+    );
     // C14-K5: Ne pruning with a second type / NaN in the column
-    run_trace(out, r, Mode::StoreBackward, &[CreateNode(vec![]), CreateNode(vec![]), SetNodeProp(0, 1, i(1)), SetNodeProp(1, 1, f(f64::NAN))], 1, "corpus:K5", false);
-    run_trace(out, r, Mode::StoreBackward, &[CreateNode(vec![]), CreateNode(vec![]), SetNodeProp(0, 2, Value::String("a".into())), SetNodeProp(1, 2, i(1))], 1, "corpus:K5", false);
+    run_trace_p(out, r, Mode::StoreBackward, &[CreateNode(vec![]), CreateNode(vec![]), SetNodeProp(0, 1, i(1)), SetNodeProp(1, 1, f(f64::NAN))], 1, "corpus:K5", false, &[(1, i(1))]);
+    run_trace_p(
+        out,
+        r,
+        Mode::StoreBackward,
+        &[CreateNode(vec![]), CreateNode(vec![]), SetNodeProp(0, 2, Value::String("a".into())), SetNodeProp(1, 2, i(1))],
+        1,
+        "corpus:K5",
+        false,
+        &[(2, Value::String("a".into()))],
+    );
     // C14-K6: a property set on an id that is not a live node enters the index
-    run_trace(out, r, Mode::StoreBackward, &[CreateIndex(0), CreateNode(vec![]), DeleteNode(0), SetNodeProp(0, 0, i(1)), SetNodeProp(5, 0, i(1))], 1, "corpus:K6", false);
+    run_trace_p(out, r, Mode::StoreBackward, &[CreateIndex(0), CreateNode(vec![]), DeleteNode(0), SetNodeProp(0, 0, i(1)), SetNodeProp(5, 0, i(1))], 1, "corpus:K6", false, &[(0, i(1))]);
     // C14-K7: label change after a refresh is not seen by the next refresh
     for m in all {
         run_trace(out, r, m, &[CreateNode(vec![0]), RefreshStats, AddLabel(0, 1), RefreshStats, RemoveLabel(0, 0), RefreshStats, CreateNode(vec![]), RefreshStats], 1, "corpus:K7", false);
